@@ -267,6 +267,30 @@ func init() {
 		probes := []probe{
 			{"third cancel", "cancel from=third"}, {"third coop", "coop from=third"}, {"third txmsg", "txmsg from=third"}, {"third agree", "agree from=third"},
 		}
+		// a message from a third party must not change what happens NEXT either: the honest run with one foreign
+		// message (same swap id, same type the swap is waiting for or any other) inserted at any point ends like the
+		// honest run alone
+		for _, role := range roles {
+			for _, chain := range []string{"btc", "lbtc"} {
+				base := baseScript(role, chain)
+				_, c0, _ := runScenario(defaultCfg(), base)
+				want := c0.state()
+				c0.w.close()
+				for i := 1; i <= len(base); i++ {
+					for _, p := range probes {
+						steps := cat(base[:i], []string{p.step}, base[i:])
+						w, c, _ := runScenario(defaultCfg(), steps)
+						res.Evaluations++
+						res.Distinct++
+						res.Histogram["honest run with a foreign message inserted"]++
+						if got := c.state(); got != want {
+							res.addFinding("C09/third-party-changes-outcome/"+p.name, fmt.Sprintf("the honest run ends in %s, with one message from a third party inserted it ends in %s", want, got), map[string]string{"role": role, "chain": chain, "scenario": scenarioKey(steps)})
+						}
+						w.close()
+					}
+				}
+			}
+		}
 		for _, role := range roles {
 			for _, chain := range []string{"btc", "lbtc"} {
 				pre := restPrefixes(role, chain)
